@@ -436,6 +436,7 @@ class Entity:
         self.faults = faults
         self.role = role  # 'src' | 'dst'
         self.closed: list = []  # transaction ids this entity has finished (sorted)
+        self.autodrain = True  # False: PDUs stay queued until get_one() (partial draining, C10)
 
     # ---- bookkeeping ---------------------------------------------------------------------------
     def active_tid(self):
@@ -461,6 +462,10 @@ class Entity:
             out.append(Msg(holder.pdu))
         return out
 
+    def get_one(self):
+        holder = self.h.get_next_packet()
+        return None if holder is None else Msg(holder.pdu)
+
     def call(self, fn, *a):
         """Run one API call; returns obs dict with emitted PDUs (as Msg), indications, faults, exception."""
         before = self.active_tid()
@@ -470,7 +475,7 @@ class Entity:
             ret = fn(*a)
         except Exception as ex:  # noqa: BLE001
             obs["exc"] = exc_desc(ex)
-        msgs = self.drain()
+        msgs = self.drain() if self.autodrain else []
         inds = self.user.take()
         flts = self.faults.take()
         ended = [r["tid"] for r in inds if r["ind"] == "finished"]
